@@ -632,7 +632,11 @@ func c12Run(t *rapid.T, st *kvh.Stats) {
 	faults := d.faults(seed, e.Thorough())
 	excluded := int64(0)
 	nontriv := 0
-	for _, ft := range faults {
+	for i, ft := range faults {
+		if i%256 == 0 && e.PastSoftDeadline() {
+			st.ExtraAdd("faults_not_injected_after_soft_deadline", int64(len(faults)-i))
+			break
+		}
 		// exclusion: truncation of a rotated file exactly at a record boundary
 		if ft.Kind == "truncate" && ft.File != d.newest && strings.HasSuffix(ft.File, ".data") {
 			boundary := ft.Off == 0
